@@ -28,6 +28,8 @@ def alphabet(mode):
             'hardlink': lambda n: ({n: ('f', TEXT, 0o644), n + '-link': ('h', n)}, n),
             'missing': lambda n: ({}, n),
             'dir': lambda n: ({n: ('d',)}, n),
+            # skipped because the output file already exists (no -f)
+            'exists': lambda n: ({n: ('f', TEXT, 0o644), n + '.bz2': ('f', b'already here\n', 0o644)}, n),
         }
     d = {
         'small': lambda n: ({n + '.bz2': ('f', bz2.compress(TEXT, 9), 0o644)}, n + '.bz2'),
@@ -37,6 +39,7 @@ def alphabet(mode):
         'hardlink': lambda n: ({n + '.bz2': ('f', bz2.compress(TEXT, 9), 0o644), n + '-link': ('h', n + '.bz2')}, n + '.bz2'),
         'missing': lambda n: ({}, n + '.bz2'),
         'corrupt': lambda n: ({n + '.bz2': ('f', bzgen.flip(bz2.compress(TEXT * 3, 9), 333), 0o644)}, n + '.bz2'),
+        'exists': lambda n: ({n + '.bz2': ('f', bz2.compress(TEXT, 9), 0o644), n: ('f', b'already here\n', 0o644)}, n + '.bz2'),
     }
     if mode == 'cdf':
         d['plain'] = lambda n: ({n: ('f', b'not bzip2 at all\n' * 5, 0o644)}, n)
@@ -82,6 +85,11 @@ def run(tier):
     distinct = set()
     for (r, fs, so), m in zip(outs, meta):
         distinct.add((m['mode'], m['seq']))
+        if r['kind'] == 'exit' and r['inv'] & (256 | 1024 | 2048):
+            chk.violation('C18|inv|%s|%d' % (m['mode'], r['inv'] & (256 | 1024 | 2048)), 'lbzip2 %s: %s' % (
+                ' '.join(cases[meta.index(m)]['args']), 'invariant broken: ' + sched.inv_text(r['inv'] & (256 | 1024 | 2048))),
+                {'engine': 'lbzx-batch', 'seq': m['seq'], 'mode': m['mode']})
+            continue
         if r['sanitizer'] or r['kind'] != 'exit':
             chk.violation('C18|abnormal|%s|%s' % (m['mode'], r['kind']), 'lbzip2 %s: run ends with %s(%s) %s' % (
                 ' '.join(cases[meta.index(m)]['args']), r['kind'], r['code'], r['stderr_head']), {'engine': 'lbzx-batch', 'seq': m['seq'], 'mode': m['mode']})
